@@ -13,12 +13,13 @@ func init() { register("C13", "Corr.Run_C13", genC13) }
 func len16(b []byte) []byte { return append(be16(len(b)), b...) }
 
 type c13Client struct {
-	tok       int
-	w         *WireClient
-	id        []byte
-	seen      int // frames already consumed
-	login     bool
-	pendingPM uint32
+	tok        int
+	w          *WireClient
+	id         []byte
+	seen       int // frames already consumed
+	login      bool
+	pendingPM  uint32
+	name, icon []byte // what the client last told the server (to repeat it unchanged with new options)
 }
 
 // render the frames a client received since the last call, in the canonical form of Corr/Run_C13.v
@@ -223,6 +224,7 @@ func genC13(cs *CaseSet, rng *Rng, tier string, dir string) {
 				opts := rng.Intn(8)
 				auto := rng.Bytes(1 + rng.Intn(8))
 				c.w.Send(121, RField{102, name}, RField{104, icon}, RField{113, be16(opts)}, RField{215, auto})
+				c.name, c.icon = name, icon
 				delete(limbo, c.tok)
 				actor = c
 				settle()
@@ -232,14 +234,19 @@ func genC13(cs *CaseSet, rng *Rng, tier string, dir string) {
 			case r < 7: // SetClientUserInfo
 				name := rng.Bytes(rng.Intn(10))
 				icon := rng.Bytes(rng.Pick(2, 2, 4))
+				sameIdentity := c.name != nil && rng.Intn(3) == 0 // only the options change: name and icon are repeated
+				if sameIdentity {
+					name, icon = c.name, c.icon
+				}
 				fields := []RField{{102, name}, {104, icon}}
 				var optb []byte
 				auto := rng.Bytes(1 + rng.Intn(8))
-				if rng.Bool() {
+				if rng.Bool() || sameIdentity {
 					optb = be16(rng.Intn(8))
 					fields = append(fields, RField{113, optb}, RField{215, auto})
 				}
 				c.w.Send(304, fields...)
+				c.name, c.icon = name, icon
 				delete(limbo, c.tok)
 				actor = c
 				settle()
